@@ -434,5 +434,6 @@ func runC02(e *Env) {
 		c3.Cfg.Tracks = 3
 		c02Eval(e, m, &c3, true)
 	})
+	runYAMLForms(e, "C02")
 	c02Accounting(e)
 }
